@@ -97,19 +97,21 @@ func Collapse(obls []Obligation) []Obligation {
 
 // SortObligations orders failing obligations first, then by rule and construct.
 func SortObligations(obls []Obligation) {
-	rank := func(o Outcome) int {
-		switch o {
-		case Violated:
+	rankO := func(o Obligation) int {
+		switch {
+		case o.Outcome == Discharged:
+			return 4
+		case o.Rule == "FLOOR":
+			return 3 // a floor usually fails as a consequence of something reported above it
+		case o.Outcome == Violated:
 			return 0
-		case Undecided:
-			return 1
 		}
-		return 2
+		return 1
 	}
 	sort.SliceStable(obls, func(i, j int) bool {
 		a, b := obls[i], obls[j]
-		if rank(a.Outcome) != rank(b.Outcome) {
-			return rank(a.Outcome) < rank(b.Outcome)
+		if rankO(a) != rankO(b) {
+			return rankO(a) < rankO(b)
 		}
 		if a.Rule != b.Rule {
 			return a.Rule < b.Rule
